@@ -1225,6 +1225,35 @@ static TypeInfo *parse_generic_type_args(Stage1Parser *p, const char *base_name)
     return type_info;
 }
 
+/* Postfix forms (field access `.name`, tuple index `.N`) bind tighter than any
+ * unary or infix operator.  Applies them to an operand that was just parsed by
+ * parse_primary, so that `a + p.x` is `a + (p.x)` and `-p.x` is `-(p.x)`. */
+static ASTNode *parse_operand_postfix(Stage1Parser *p, ASTNode *operand) {
+    while (operand && match(p, TOKEN_DOT)) {
+        Token *dot_tok = current_token(p);
+        Token *next = peek_token(p, 1);
+        if (!dot_tok || !next) break;
+        if (next->token_type == TOKEN_NUMBER && next->value) {
+            ASTNode *index_node = create_node(AST_TUPLE_INDEX, dot_tok->line, dot_tok->column);
+            index_node->as.tuple_index.tuple = operand;
+            index_node->as.tuple_index.index = (int)atoll(next->value);
+            advance(p);  /* consume '.' */
+            advance(p);  /* consume number */
+            operand = index_node;
+        } else if (next->token_type == TOKEN_IDENTIFIER && next->value) {
+            ASTNode *field_access = create_node(AST_FIELD_ACCESS, dot_tok->line, dot_tok->column);
+            field_access->as.field_access.object = operand;
+            field_access->as.field_access.field_name = strdup(next->value);
+            advance(p);  /* consume '.' */
+            advance(p);  /* consume field name */
+            operand = field_access;
+        } else {
+            break;
+        }
+    }
+    return operand;
+}
+
 /* Parse primary expression */
 static ASTNode *parse_primary(Stage1Parser *p) {
     Token *tok = current_token(p);
@@ -1240,7 +1269,7 @@ static ASTNode *parse_primary(Stage1Parser *p) {
             int line = tok->line;
             int column = tok->column;
             advance(p);  /* consume 'not' */
-            ASTNode *operand = parse_primary(p);
+            ASTNode *operand = parse_operand_postfix(p, parse_primary(p));
             if (!operand) return NULL;
             ASTNode *not_node = create_node(AST_PREFIX_OP, line, column);
             not_node->as.prefix_op.op = TOKEN_NOT;
@@ -1255,7 +1284,7 @@ static ASTNode *parse_primary(Stage1Parser *p) {
             int line = tok->line;
             int column = tok->column;
             advance(p);  /* consume '-' */
-            ASTNode *operand = parse_primary(p);
+            ASTNode *operand = parse_operand_postfix(p, parse_primary(p));
             if (!operand) return NULL;
             ASTNode *neg_node = create_node(AST_PREFIX_OP, line, column);
             neg_node->as.prefix_op.op = TOKEN_MINUS;
@@ -2451,7 +2480,7 @@ static ASTNode *parse_expression(Stage1Parser *p) {
                 int op_col = cur->column;
                 advance(p);  /* consume operator */
 
-                ASTNode *right = parse_primary(p);
+                ASTNode *right = parse_operand_postfix(p, parse_primary(p));
                 if (!right) {
                     parser_error(p, op_line, op_col, "Error at line %d, column %d: Expected expression after operator\n",
                             op_line, op_col);
